@@ -1,6 +1,6 @@
 (* C05 property theorems ONLY (each closed by an already proved lemma) + assumptions. *)
 From Coq Require Import NArith List String Bool.
-From RV Require Import C05.Types C05.Model C05.Exempt C05.Table C05.Codec C05.Roundtrip C05.Whole C05.Delta C05.Run C05.WholeGen Gen.Descriptors.
+From RV Require Import C05.Types C05.Model C05.Exempt C05.Table C05.Codec C05.Roundtrip C05.Whole C05.Delta C05.Run C05.WholeGen C05.ReadSets Gen.Descriptors Gen.ReadSets.
 Import ListNotations.
 Open Scope N_scope.
 
@@ -116,12 +116,12 @@ Proof. exact example_mem_wf. Qed.
    For every well-formed table, memories a (snapshot 0) and b (live state when the blob was written): reading
    delta(view a, view b) into a gives the persisted view of b - ALSO when b lacks arrays that a has (reset_integrator,
    integrator switch, MERCURIUS removal): the reader's semantics of a size-0 array field is realloc(ptr,0) and
-   count member := 0 (vanished_writes_values), so the writer omits the field again.  Hypotheses: absent arrays of b
-   are zero-length arrays (model convention), and fixed-size pointers present in a stay present in b (a vanished
-   fixed-size pointer is NOT restored faithfully by the C reader; outside the theorem).  (Fields between the header
+   count member := 0 (vanished_writes_values), so the writer omits the field again; a vanished fixed-size pointer
+   (display_settings) becomes NULL (realloc(ptr,0) frees and returns NULL on glibc; confirmed on the library, also
+   under ASan).  Hypothesis: absent arrays of b are zero-length arrays (model convention).  (Fields between the header
    and the function-pointer flag; the flag field writes no member, see whole_table_okb.) *)
 Theorem C05_delta_roundtrip : forall psz legacy fpid tbl, whole_table_okb legacy fpid tbl = true ->
-  forall a b, mem_wf psz tbl a -> mem_wf psz tbl b -> absent_normal tbl b -> fixed_kept tbl a b ->
+  forall a b, mem_wf psz tbl a -> mem_wf psz tbl b -> absent_normal tbl b ->
   flat_map (wdesc psz (rfields legacy tbl a (delta (flat_map (wdesc psz a) (live tbl)) (flat_map (wdesc psz b) (live tbl))))) (live tbl)
   = flat_map (wdesc psz b) (live tbl).
 Proof. exact delta_roundtrip. Qed.
@@ -131,12 +131,37 @@ Print Assumptions C05_delta_roundtrip.
    reset_integrator(); the delta consists of the changed time and the vanished marker of field 104 *)
 Example C05_delta_hypotheses_inhabited :
   mem_wf particle_size table example_a /\ mem_wf particle_size table (arrays_zero_length example_b) /\
-  absent_normal table (arrays_zero_length example_b) /\ fixed_kept table example_a (arrays_zero_length example_b) /\
+  absent_normal table (arrays_zero_length example_b) /\
   In (mkfield 104 []) (delta (flat_map (wdesc particle_size example_a) (live table))
                              (flat_map (wdesc particle_size (arrays_zero_length example_b)) (live table))) /\
   List.length (delta (flat_map (wdesc particle_size example_a) (live table))
                      (flat_map (wdesc particle_size (arrays_zero_length example_b)) (live table))) = 2%nat.
 Proof. exact example_delta. Qed.
+
+(* 9. CONTINUATION, the part a model without step functions can carry.  Read sets are regenerated from the clang AST
+   of every src/*.c file (a member occurrence is a read unless it is the left side of a plain assignment).
+   (a) every member that ANY code reads is persisted, re-derived by the reader, or exempt;
+   (b) every read of an EXEMPT member happens in a source file that the audit (Exempt.exempt_readers, one reviewed
+       entry per exempt member) allows: when an integrator starts reading a non-persisted member that so far only its
+       owner module touched - the way TRACE came to read the capacity N_allocated_collisions as a flag - this theorem
+       fails at the next run and the entry must be re-audited or the member persisted;
+   (c) the audit list has exactly one entry per exempt member, and all regenerated names are struct members. *)
+Theorem C05_reads_covered :
+  forallb (fun mr => persisted table (fst mr) || rederived (fst mr) || is_exempt (fst mr)) member_readers = true.
+Proof. exact gen_reads_covered. Qed.
+Print Assumptions C05_reads_covered.
+
+Theorem C05_exempt_readers_audited :
+  forallb (fun mr => negb (is_exempt (fst mr)) || forallb (allowed_reader (fst mr)) (snd mr)) member_readers = true.
+Proof. exact gen_exempt_readers_audited. Qed.
+Print Assumptions C05_exempt_readers_audited.
+
+Theorem C05_exempt_readers_exact :
+  forallb (fun e => existsb (fun r => String.eqb (fst r) (fst e)) exempt_readers) exempt &&
+  forallb (fun r => is_exempt (fst r)) exempt_readers &&
+  forallb (fun mr => match member_of sim_members (fst mr) with Some _ => true | None => false end) (member_readers ++ member_writers) = true.
+Proof. exact gen_exempt_readers_exact. Qed.
+Print Assumptions C05_exempt_readers_exact.
 
 (* Non-vacuity: a DP7 descriptor with two bodies' worth of data satisfies desc_wf and is written. *)
 Example C05_hypotheses_inhabited :
